@@ -598,8 +598,15 @@ fn mode_case(rng: &mut Rng, inp: &mut String, out: &mut String) {
         InterpreterResult::new(InstructionResult::Stop, Bytes::new(), env.gas()),
         0..0,
     ));
-    let d = ben::mode_apply::<_, EVMError<Infallible, InvalidTransaction>>(deferred, &mut evm, &mut frame)
-        .expect("CacheDB<EmptyDB> is infallible");
+    let d = caught(|| {
+        ben::mode_apply::<_, EVMError<Infallible, InvalidTransaction>>(deferred, &mut evm, &mut frame)
+            .expect("CacheDB<EmptyDB> is infallible")
+    });
+    let Some(d) = d else {
+        // the real code panicked (the model never does on these inputs)
+        out.push_str(" P X:mode-apply-panicked");
+        return;
+    };
     let j = evm.ctx.journal().evm_state().get(&BEN).cloned();
     let state = evm.ctx.journal_mut().finalize();
     let f = state.get(&BEN).cloned();
